@@ -97,6 +97,9 @@ func NewWorld(spec *WorldSpec) *World {
 		if f.Link != "" {
 			w.fs[filepath.Clean(f.Path)] = &node{link: f.Link, mode: fs.ModeSymlink | 0o777}
 		}
+		if f.Age != 0 {
+			w.fs[filepath.Clean(f.Path)].mt = w.Epoch - f.Age
+		}
 	}
 	for _, f := range spec.Files {
 		if f.HardLink != "" {
